@@ -14,7 +14,22 @@ ENV = json.load(open(os.path.join(vlib.VERIF, 'envelopes.json')))
 RECS = None
 PROGS = None
 
-KERN = dict(sinc=lambda w: np.sin(w) / w, expm1w=lambda w: np.expm1(w) / w, log1pw=lambda w: np.log1p(w) / w, wsin=lambda w: w / np.sin(w))
+def _log1p_over_w(w):
+    """log(1+w)/w evaluated to rounding also for COMPLEX w near 0 (numpy's complex log1p loses digits there, which would make
+    the test function - not the library - inaccurate): alternating series below |w| = 0.1"""
+    w = np.asarray(w)
+    with np.errstate(all='ignore'):
+        small = np.abs(w) < 0.1
+        ws = np.where(small, w, 0.05)
+        ser = np.zeros_like(ws, dtype=np.result_type(ws, float))
+        for k in range(24, -1, -1):
+            ser = ser * (-ws) + 1.0 / (k + 1)
+        big = np.log1p(np.where(small, 0.5, w)) / np.where(small, 0.5, w)
+        out = np.where(small, ser, big)
+        return np.where(w == 0, np.nan, out) if np.ndim(out) else (np.nan if w == 0 else out[()])
+
+
+KERN = dict(sinc=lambda w: np.sin(w) / w, expm1w=lambda w: np.expm1(w) / w, log1pw=_log1p_over_w, wsin=lambda w: w / np.sin(w))
 
 
 def run_case(case):
@@ -55,7 +70,8 @@ def run_case(case):
         elif np.isnan(out).any():
             left[0] = True          # a step left the domain of the kernel (e.g. log1p below -1)
         return out
-    opts = dict(method=cfg['method'], order=cfg['order'], full_output=True, step_ratio=float(cfg['ratio']), path=cfg['path'])
+    # the ratio is a real number: for odd seeds it is given as a Python int
+    opts = dict(method=cfg['method'], order=cfg['order'], full_output=True, step_ratio=(int(cfg['ratio']) if seed % 4 == 1 else float(cfg['ratio'])), path=cfg['path'])
     try:
         with np.errstate(all='ignore'):
             val, info = Limit(fw, **opts)(z if len(z) > 1 else z[0])
